@@ -17,6 +17,11 @@ LEVEL = "model_checking"
 SD = SPEC / "kbd"
 PROPERTY_CLAUSES = {"KilSound", "KilComplete", "EventOrder", "Cadence", "ReleaseFollows", "ReleaseJustified", "FifoBounded", "DropsOldestOnly", "KeyiGated"}
 PALETTE = [0, 1, 8, 9, 27, 80]   # matrix codes (column * 8 + row)
+PALETTE12 = [0, 1, 8, 9, 18, 27, 35, 44, 52, 61, 70, 80]      # burst configurations (spec/kbd/TKeys12.tla)
+
+
+def palette_of(cfgname: str):
+    return PALETTE12 if cfgname.endswith("-burst") else PALETTE
 
 CONFIGS = {
     # name: impl, press, release, delay, interval, cap, active_high
@@ -29,6 +34,10 @@ CONFIGS = {
     "rs-norepeat-high": ("rs", 2, 6, 24, 0, 8, True),
     "py-norepeat-high": ("py", 2, 4, 3, 0, 7, True),
     "py-norepeat-low": ("py", 3, 4, 3, 0, 7, False),
+    # twelve keys: bursts of more events in one scan tick than the queue holds (Python only: the Rust harness sees the events of a
+    # tick through the queue, so a burst beyond its capacity is not observable there)
+    "py-small-high-burst": ("py", 2, 2, 3, 2, 7, True),
+    "py-small-low-burst": ("py", 2, 2, 3, 2, 7, False),
 }
 
 
@@ -38,7 +47,8 @@ def _names() -> Dict[int, str]:
 
 
 class PyKbd:
-    def __init__(self, cfg):
+    def __init__(self, cfg, palette=None):
+        self.palette = palette or PALETTE
         from pce500.keyboard_matrix import KeyboardMatrix
         from pce500.keyboard_handler import PCE500KeyboardHandler
         _, p, r, d, i, _cap, high = cfg
@@ -67,7 +77,7 @@ class PyKbd:
         evs = [[e.code, 1 if e.release else 0] for e in self.captured]
         self.captured.clear()
         st = []
-        for code in PALETTE:
+        for code in self.palette:
             s = self.m._key_states[self.names[code]]
             st.append([code, int(s.pressed), int(s.debounced), s.press_ticks, s.release_ticks, s.repeat_ticks])
         return {"ret": ret, "events": evs, "fifo": list(self.m.fifo_snapshot()), "states": st, "isr": -1, "kbirq": -1}
@@ -100,7 +110,8 @@ class PyKbd:
 
 
 class RsKbd:
-    def __init__(self, vh: Vh, cfg, kb_irq: bool):
+    def __init__(self, vh: Vh, cfg, kb_irq: bool, palette=None):
+        PALETTE = palette or globals()["PALETTE"]
         self.vh = vh
         _, p, _r, _d, _i, _cap, high = cfg
         names = _names()
@@ -141,7 +152,7 @@ class RsKbd:
 def drive_one(cfgname: str, acts, vh: Vh, tid: int, kb_irq: bool = True):
     cfg = CONFIGS[cfgname]
     impl = cfg[0]
-    kb = PyKbd(cfg) if impl == "py" else RsKbd(vh, cfg, kb_irq)
+    kb = PyKbd(cfg, palette_of(cfgname)) if impl == "py" else RsKbd(vh, cfg, kb_irq, palette_of(cfgname))
     # event clauses need the enqueued events of every scanning step to be observable; the Rust KIL read scans and
     # then consumes the queue, so traces that read KIL on Rust only carry the KIL / queue / KEYI clauses
     evc = 0 if (impl == "rs" and any(a["ev"] == "ReadKIL" for a in acts)) else 1
@@ -200,7 +211,7 @@ def campaign(cr: CheckRun, cfgname: str, items, tag: str) -> None:
     if not items:
         return
     cfg = write_cfg(cfgname)
-    ntr, nev, bad = vlib.trace_campaign("C14", SD, "TKeys", cfg, items, drive_shard, f"{tag}-{cfgname}", extra=cfgname)
+    ntr, nev, bad = vlib.trace_campaign("C14", SD, "TKeys12" if cfgname.endswith("-burst") else "TKeys", cfg, items, drive_shard, f"{tag}-{cfgname}", extra=cfgname)
     impl = CONFIGS[cfgname][0]
     for b, meta in bad:
         rec = {"cfg": cfgname, "acts": meta["acts"], "kb_irq": meta["kb_irq"], "clause": b["clause"], "line": b["line"], "detail": b["detail"]}
@@ -297,6 +308,24 @@ def random_acts(seed: int, n: int, length: int, high: bool, slow: bool) -> List[
     return out
 
 
+def burst_acts(seed: int, n: int, high: bool) -> List[List[Dict[str, Any]]]:
+    """all columns strobed, nine to twelve keys go down between two scan ticks (and later up again together): one tick debounces
+    them all and produces more events than the queue holds"""
+    rnd = random.Random(seed)
+    out = []
+    for _ in range(n):
+        keys = rnd.sample(PALETTE12, rnd.randint(9, 12))
+        acts = [{"ev": "WriteKOL", "v": 0xFF if high else 0x00}, {"ev": "WriteKOH", "v": 0x0F if high else 0x00}]
+        acts += [{"ev": "Press", "k": k} for k in keys]
+        acts += [{"ev": "Tick"}] * rnd.randint(3, 9)
+        if rnd.random() < 0.5:
+            acts.append({"ev": "Consume"})
+        acts += [{"ev": "Release", "k": k} for k in keys]
+        acts += [{"ev": "Tick"}] * rnd.randint(3, 9)
+        out.append(acts)
+    return out
+
+
 def flicker_acts(seed: int, n: int, high: bool) -> List[List[Dict[str, Any]]]:
     """a key stays physically held while its column is de-strobed in short, separate gaps (firmware scanning other columns)"""
     rnd = random.Random(seed)
@@ -361,6 +390,9 @@ def run(cr: CheckRun) -> None:
     # code -> spec: seeded random histories on every configuration
     n = 150 if quick else 2500
     for cfgname, (impl, p, r, d, i, cap, high) in CONFIGS.items():
+        if cfgname.endswith("-burst"):
+            campaign(cr, cfgname, burst_acts(cr.seed + 5, 24 if quick else 400, high), "burst")
+            continue
         slow = d >= 24
         campaign(cr, cfgname, random_acts(cr.seed + len(cfgname), n, 40 if not slow else 60, high, slow), "random")
     for cfgname in ("rs-norepeat-high", "rs-press2-high", "py-small-high", "py-norepeat-high", "py-norepeat-low"):
@@ -386,7 +418,7 @@ def replay(path: str) -> int:
         ev = drive_one(rec["cfg"], rec["acts"], vh, 1, rec.get("kb_irq", True))
     finally:
         vh.close()
-    bad = vlib.tlc_judge_trace("C14", SD, "TKeys", write_cfg(rec["cfg"]), ev, "replay")
+    bad = vlib.tlc_judge_trace("C14", SD, "TKeys12" if rec["cfg"].endswith("-burst") else "TKeys", write_cfg(rec["cfg"]), ev, "replay")
     for b in bad:
         print("REJECTED", b)
     return 1 if any(b["clause"] in PROPERTY_CLAUSES for b in bad) else 0
